@@ -29,11 +29,14 @@ MACHINE_PROFILE = {
     "cap": (8, 14),
     "level_limit_max": 3,
     "force_level_limit": True,
-    "gsc_kinds": ["MetaepochLimit", "SingularProblemEvalLimitReached", "FitnessEvalLimitReached", "AllStopped", "NoActiveNonrootDemes", "Never", "Never"],
+    "gsc_kinds": ["MetaepochLimit", "SingularProblemEvalLimitReached", "FitnessEvalLimitReached", "AllStopped", "NoActiveNonrootDemes", "Never", "Never", "Never", "Never"],
+    "sprouty": True,
+    "level_limit_min": 2,
+    "root_lsc_kinds": ["Queue", "DontStop", "DontStop", "DontStop"],
 }
 
-S_STOPS = st.lists(st.booleans(), max_size=8)
-S_PROPOSALS = st.lists(st.lists(st.integers(0, 11), max_size=3), max_size=6)
+S_STOPS = st.lists(st.sampled_from([False, False, False, True]), max_size=8)
+S_PROPOSALS = st.lists(st.lists(st.integers(0, 11), min_size=0, max_size=3), min_size=1, max_size=6)
 
 
 def _layers(problem):
@@ -221,6 +224,14 @@ def make_tree_machine(prop: str, make_checkers, judge, coll: Collector, tally: T
         @rule(stops=S_STOPS, proposals=S_PROPOSALS)
         def step_again(self, stops, proposals):
             self._go({"op": "step", "stops": stops, "proposals": proposals})
+
+        @rule(proposals=S_PROPOSALS)
+        def step_nobody_stops(self, proposals):
+            self._go({"op": "step", "stops": [], "proposals": proposals})
+
+        @rule(stops=S_STOPS)
+        def step_default_proposals(self, stops):
+            self._go({"op": "step", "stops": stops, "proposals": []})
 
         if allow_look:
 
